@@ -828,6 +828,18 @@ def oracle(case, obs):
         v = oracle_once(case, obs, segs)
         if v:
             return v
+    if segs is not None and has_format_part(segs) and not outside_statement(segs) and case['kind'] != 'conc':
+        # conversions / format specs: the rendered TEXT is left to the model — but "recorded on the snapshot with one
+        # watch result per field" still speaks: whenever a snapshot carries the log message, its LOG watches are the
+        # fields of the template, one each, in order
+        fexprs = [sg[1] for sg in segs if sg[0] == 'field']
+        for i, h in enumerate(obs['hits']):
+            if h.get('snapshots') and h.get('snap_log') is not None:
+                got = [w['expr'] for w in h.get('snap_watches', []) if w['source'] == 'LOG']
+                if got != fexprs:
+                    v.append(f'hit {i}: the snapshot carries the log message {h["snap_log"]!r} with LOG watches {got!r}; '
+                             f'the template has the fields {fexprs!r} (one watch result per field, in order)')
+        return v[:3]
     if segs is not None and (outside_statement(segs) or has_format_part(segs)):
         return []
     if case['kind'] == 'conc':
